@@ -3,8 +3,9 @@
 MC    : spec/system/ProcessManager.tla (wait() + SIGCHLD handler hosted by any thread + destructor):
         Faithful / TypeOK exhaustively for 1 and 2 managers (+1 manager-less host thread), 3 exit kinds;
         termination under fairness. The pinned wait() (CheckWaitpid = FALSE) must be rejected (non-vacuity).
-        NoUAF (handler executes a callback deleted by ~ProcessManager) is violated by the model of the
-        current code: recorded as a known finding, see known_findings.json.
+        NoUAF (the handler never executes a callback deleted by ~ProcessManager), NoSelfDeadlock (the handler
+        never needs a mutex held by the code it interrupted). The models of the three pinned defects
+        (CheckWaitpid / ExecLocked / MaskCritical = FALSE) must each be rejected (non-vacuity).
 JUDGE : harness/procman.cxx runs real commands (exit 0, exit 3, death by SIGSEGV, slow variants) from
         0 (main thread), 1 .. 8 threads, with schedule perturbation and with the TLC counterexample of the
         pinned tree replayed deterministically (delay between the isRunning test and waitpid);
@@ -23,7 +24,9 @@ CONSTANTS
   Extra <- TraceExtra
   Kinds = {"ok", "fail", "signal"}
   CheckWaitpid = TRUE
-INVARIANTS Faithful %s
+  ExecLocked = TRUE
+  MaskCritical = TRUE
+INVARIANTS Faithful NoSelfDeadlock %s
 CONSTRAINT TrackMaxL
 POSTCONDITION ReportMaxL
 CHECK_DEADLOCK FALSE
@@ -52,11 +55,15 @@ def normalise(raw):
         n, t, a, b, c = e["e"], e["t"], e["a"], e["b"], e["c"]
         if n == "Cmd":
             kind[t] = KIND[a]
-        elif n == "PMRegister":
+        elif n == "SigRegister":
+            if a != SIGCHLD:
+                continue
             nm += 1
-            byh[a] = nm
+            byh[b] = nm
             cur[t] = nm
             out.append({"e": "Register", "m": nm, "k": kind.get(t, "ok")})
+        elif n in ("FindLocked", "FindUnlock"):
+            out.append({"e": n, "m": byh[a]})
         elif n == "Fork":
             bypid[a] = byh[b]
             out.append({"e": "Fork", "m": byh[b]})
@@ -103,41 +110,46 @@ def run(ctx):
     # ---- MC ----
     states = trans = 0
     for cfg in ("PM_fixed1.cfg", "PM_fixed2.cfg"):
-        r = ctx.tlc("system/ProcessManager", cfg=open(os.path.join(core.SPEC, "system", cfg)).read()
-                    .replace("INVARIANTS TypeOK Faithful NoUAF", "INVARIANTS TypeOK Faithful\nCONSTRAINT NoUAFSoFar"),
-                    workers=8, coverage=(cfg == "PM_fixed2.cfg"))
+        r = ctx.tlc("system/ProcessManager", cfg=cfg, workers=8, coverage=(cfg == "PM_fixed2.cfg"))
         states += r.distinct
         trans += r.generated
         if not r.ok:
             ctx.violation("model:%s" % r.violated, "ProcessManager.tla (%s) violates %s" % (cfg, r.violated), None)
         elif cfg == "PM_fixed2.cfg":
-            for a in ("Ctor", "Fork", "ChildExit", "Deliver", "Exec", "HDone", "Test", "Waitpid", "Set", "Verdict",
-                      "Remove", "Destroy"):
+            for a in ("CtorLock", "Ctor", "Fork", "FindLock", "FindUnlock", "ChildExit", "Deliver", "Snap", "Exec", "HDone",
+                      "Test", "Waitpid", "Set", "Verdict", "Remove", "Destroy"):
                 if r.coverage.get(a, (0, 0))[1] == 0:
                     raise Broken("vacuous model checking: action %s never taken" % a)
     if ctx.thorough:
         r = ctx.tlc("system/ProcessManager", cfg="SPECIFICATION Spec\nCONSTANTS\n T = {t1, t2, t3}\n Extra = {x1}\n"
-                    " Kinds = {\"ok\", \"fail\"}\n CheckWaitpid = TRUE\nINVARIANTS TypeOK Faithful\nCONSTRAINT NoUAFSoFar\n",
+                    " Kinds = {\"ok\", \"fail\"}\n CheckWaitpid = TRUE\n ExecLocked = TRUE\n MaskCritical = TRUE\n"
+                    "INVARIANTS TypeOK Faithful NoUAF NoSelfDeadlock\n",
                     workers=16, heap="24g", timeout=3000)
         states += r.distinct
         trans += r.generated
         if not r.ok:
             ctx.violation("model:%s" % r.violated, "ProcessManager.tla (3 managers) violates %s" % r.violated, None)
-    pinned = ctx.tlc("system/ProcessManager", cfg="PM_pinned1.cfg", workers=2)
-    if pinned.violated != "Faithful":
-        raise Broken("the model of the pinned wait() is not rejected: model is vacuous")
     live = ctx.tlc("system/ProcessManager", cfg="PM_live.cfg", workers=4)
     if not live.ok:
         ctx.violation("model:Terminates", "ProcessManager.tla: Terminates violated under fairness", None)
-    uaf = ctx.tlc("system/ProcessManager", cfg="PM_uaf2.cfg", workers=2)
-    if uaf.violated == "NoUAF":
-        ctx.violation("model:NoUAF", "ProcessManager.tla: treatAction executes a snapshotted callback after "
-                      "~ProcessManager deleted it (Deliver; Remove; Exec)", None)
-    states += pinned.distinct + live.distinct + uaf.distinct
-    trans += pinned.generated + live.generated + uaf.generated
+    states += live.distinct
+    trans += live.generated
+    # non-vacuity: the models of the three pinned defects must each be rejected by the matching invariant
+    rejected = {}
+    for cfg, inv in (("PM_pinned1.cfg", "Faithful"), ("PM_uaf2.cfg", "NoUAF"), ("PM_selfdeadlock1.cfg", "NoSelfDeadlock")):
+        r = ctx.tlc("system/ProcessManager", cfg=cfg, workers=2)
+        if r.violated != inv:
+            raise Broken("the model %s of a pinned defect is not rejected by %s: vacuous" % (cfg, inv))
+        rejected[cfg] = inv
+        states += r.distinct
+        trans += r.generated
     # ---- JUDGE ----
     #        threads, iterations, perturb?, delay (us) at wait:after-isRunning-test
-    plan = [(0, 12, False, 0), (0, 8, False, 60000), (1, 12, True, 0), (1, 6, False, 60000)]
+    plan = [(0, 12, False, 0), (0, 8, False, 60000), (1, 12, True, 0), (1, 6, False, 60000),
+            # TLC's NoSelfDeadlock counterexample: SIGCHLD while the owner is inside findProcess / registerHandler
+            (0, 6, False, "findProcess:locked:30000"), (2, 6, False, "registerHandler:locked:5000"),
+            # TLC's NoUAF counterexample: the host sleeps between the snapshot and the execution of a callback
+            (3, 8, False, "treatAction:before-execute:3000")]
     if ctx.thorough:
         plan += [(0, 40, True, 0), (1, 40, True, 0), (0, 10, False, 200000), (1, 10, False, 5000)]
     conc = [(2, 6), (4, 6), (8, 5)] + ([(16, 6), (3, 20), (8, 20)] if ctx.thorough else [])
@@ -152,8 +164,8 @@ def run(ctx):
         if perturb:
             env["TFEL_VERIF_PERTURB"] = str(seed)
         if delay:
-            env["TFEL_VERIF_DELAY"] = "wait:after-isRunning-test:%d" % delay
-        r = ctx.run(["timeout", "-s", "KILL", "120", exe, str(nth), str(iters), str(seed), sd], env=env, timeout=150)
+            env["TFEL_VERIF_DELAY"] = delay if isinstance(delay, str) else "wait:after-isRunning-test:%d" % delay
+        r = ctx.run(["timeout", "-s", "KILL", "45", exe, str(nth), str(iters), str(seed), sd], env=env, timeout=150)
         raw = core.read_ndjson(trace) if os.path.exists(trace) else []
         desc = {"threads": nth, "iterations": iters, "perturb": perturb, "delay_us": delay, "seed": seed}
         if r.returncode != 0:
@@ -185,7 +197,7 @@ def run(ctx):
     return finish(ctx, "model_checking", {
         "states": states, "transitions": trans, "traces_validated_against_impl": ntr, "events_validated": nev,
         "samples": samples, "constants": "T in {1,2(,3)} managers + 1 extra host, Kinds = ok/fail/signal",
-        "pinned_model_rejected_with": pinned.violated,
+        "pinned_models_rejected_with": rejected,
         "impl_runs": [{"threads": a, "iterations": b, "perturb": c, "delay_us": d} for a, b, c, d in plan] +
                      [{"threads": a, "iterations": b, "perturb": True, "delay_us": 0} for a, b in conc]},
         ["hook events are written with one write(2) each to an O_APPEND file: file order = call order",
